@@ -46,7 +46,11 @@ def install(eng, ctx):
         """while connect() waits, the transport's thread handles CONNECT / CONNECT_ERROR / DISCONNECT packets: the namespace table,
         the handler logs and the queues may change in any way; connect()'s own variables do not"""
         eng2.ext.note('C08 rely: while connect() waits for the namespaces, packet handlers run on the transport thread (any change of namespaces, logs, queues)')
+        ab_ = c.st.get('client', '_reconnect_abort').leaf()
+        ab_was = c.st.get(*EVENTS).c['.'][ab_]
         c.st = c.st.havoc(ENV, smt.fresh('env_connect_wait', I).decl().name())
+        eng2.ext.note('C10 rely: packet handlers never touch the reconnect-abort event (only shutdown() sets it, only _handle_reconnect clears it)')
+        c.assume(c.st.get(*EVENTS).c['.'][ab_] == ab_was)
         from .client_events import ccb_ok
         for t_ in ccb_ok(c.st).values():
             c.assume(t_)                       # the other thread keeps the callback table well-formed (its own contracts)
@@ -96,6 +100,9 @@ def connect_body(k, world):
             d['recorded.' + p_] = c.post.get('client', f_).leaf() == c.a[p_]
         L1 = c.post.get(*CNS).leaf()
         x = z3.Const('cl_x', V)
+        ab_ = c.pre.get('client', '_reconnect_abort').leaf()
+        # C10: an attempt to connect, whatever its outcome, does not signal the reconnection effort to stop
+        d['reconnect-abort-event-left-alone'] = c.post.get(*EVENTS).c['.'][ab_] == c.pre.get(*EVENTS).c['.'][ab_]
         d['reconnection-effort-left-alone'] = z3.And(c.post.get(*RTASK).leaf() == c.pre.get(*RTASK).leaf(), sv_equiv(c.post.get(*TASKS), c.pre.get(*TASKS)))
         d['recorded.namespaces-as-a-list'] = z3.And(smt.kind(L1) == smt.K_LIST, z3.If(is_str(c), z3.And(smt.vlen(L1) == 1, smt.vseq(L1)[0] == c.a.namespaces), L1 == c.a.namespaces))
         return d
@@ -144,7 +151,9 @@ def connect_body(k, world):
                 'nothing-sent': sv_equiv(lc.cur.get(*OUT), lc.entry.get(*OUT))}
 
     def inv_wait(lc):
-        return {'not-marked-connected-yet': z3.Not(connected(lc.cur))}
+        ab_ = lc.entry.get('client', '_reconnect_abort').leaf()
+        return {'not-marked-connected-yet': z3.Not(connected(lc.cur)),
+                'abort-event-untouched': lc.cur.get(*EVENTS).c['.'][ab_] == lc.entry.get(*EVENTS).c['.'][ab_]}
     notc = lambda c: z3.Not(connected(c.pre))
     k.summary = list(k.cases)
     k.abstraction = 'g.attempts record := one call of connect() with these arguments; ok := it returned'
@@ -156,6 +165,7 @@ def connect_body(k, world):
         # between connection attempts a client that is not connected has no namespace left (every exit of connect() and every
         # packet handler re-establishes it; assumed here, it is what makes the reset at the top of connect() redundant)
         'assume:not-connected-means-no-namespace-left': z3.Implies(z3.Not(connected(c.pre)), nss(c.pre).c['dom'] == z3.K(V, z3.BoolVal(False))),
+        'assume:the-connect-event-is-not-the-abort-event': c.pre.get(*CEV).leaf() != c.pre.get('client', '_reconnect_abort').leaf(),
         'dom.no-star-namespace': z3.Not(requested(c, c13.STAR)),
         'dom.no-star-namespace-connected': z3.Not(nss(c.pre).c['dom'][c13.STAR]), 'dom.namespaces-truthy': z3.Not(nss(c.pre).c['dom'][NONE])})
     k.cases = [
